@@ -45,7 +45,7 @@ def shards(tier):
         for ti in range(len(topos)):
             for ch in sp.chunks(range(nk), per):
                 out.append(("network N(%d,%d)|K%d" % (n, b, len(kinds)), ("net", n, b, ti, kinds, ch[0], ch[-1] + 1, pals)))
-    ck = ("R", "C", "L", "Z", "G", "lamp", "Vdc", "Vac", "Vacl", "Iac", "Idcl") if not T else c02.K_ALL
+    ck = ("R", "C", "L", "Z", "G", "lamp", "Vdc", "Vac", "Vacl", "Iac", "Idcl", "Vdcs", "Iacs") if not T else c02.K_ALL
     for (n, b) in ([(2, 2), (2, 3), (3, 3)] if not T else [(2, 2), (2, 3), (3, 2), (3, 3), (3, 4)]):
         kk = ck if b < 4 else c02.K5
         topos = sp.topologies(n, b)
